@@ -465,7 +465,7 @@ pub fn gen(ctx: &mut Ctx) {
                 e.raw(&foreign_pkg(&files, false, &ar));
             } else {
                 // the trailer name is padded as well, and the header ends with a %ghost file, so the
-                // iterator has to recognise the padded trailer to stop (pairing by position is harmless here)
+                // iterator has to recognise the padded trailer to stop
                 let mut tn = b"TRAILER!!!".to_vec();
                 tn.extend(std::iter::repeat(0u8).take(1 + nuls));
                 ar.extend(cpio_entry(b"070701", &tn, 0, 0, 1, &[], 0));
@@ -513,6 +513,89 @@ pub fn gen(ctx: &mut Ctx) {
             let cut = 1 + rng.below(sz as u64 + (4 - sz as u64 % 4) % 4 - 1) as usize;
             ar.truncate(ar.len() - cut);
             e.raw(&foreign_pkg(&fs, false, &ar));
+        }
+        let named = |name: &[u8], f: &FFile, ino: usize| -> Vec<u8> {
+            let mut n = name.to_vec();
+            n.push(0);
+            cpio_entry(b"070701", &n, ino as u32 + 1, f.mode as u32, 1, &f.data, 0)
+        };
+        // 9. an archive entry that names no file of the header, at any position (also: the right path
+        //    without the leading "./", i.e. "f0" for "/f0"; the ghost's name with one letter changed)
+        {
+            let at = rng.below(nf as u64 + 1) as usize;
+            let stray = FFile { dir: b"/".to_vec(), base: b"stray".to_vec(), mode: 0o100644,
+                                data: content_of('p', round as u64 + 77, *rng.pick(&SMALL)), ghost: false };
+            let name: Vec<u8> = match rng.below(3) {
+                0 => b"./stray".to_vec(),
+                1 => files[at.min(nf - 1)].cpio_name()[2..].to_vec(),
+                _ => { let mut n = files[at.min(nf - 1)].cpio_name(); n.push(b'~'); n }
+            };
+            let mut ar = Vec::new();
+            for (i, f) in files.iter().enumerate() {
+                if i == at { ar.extend(named(&name, &stray, 90)); }
+                ar.extend(entry(b"070701", f, i, 0));
+            }
+            if at == nf { ar.extend(named(&name, &stray, 90)); }
+            ar.extend(cpio_trailer());
+            // with a trailing %ghost file in the header the count guard does not hide a stray last entry
+            let mut fs = files.clone();
+            fs.push(FFile { dir: b"/".to_vec(), base: b"zz-ghost".to_vec(), mode: 0o100644, data: vec![], ghost: true });
+            e.raw(&foreign_pkg(&fs, false, &ar));
+        }
+        // 10. two archive entries with the same name (same content / different content), header has a %ghost
+        //     file so that the count guard lets the iterator reach all of them
+        for same in [true, false] {
+            let d = rng.below(nf as u64) as usize;
+            let mut fs = files.clone();
+            fs.push(FFile { dir: b"/".to_vec(), base: b"zz-ghost".to_vec(), mode: 0o100644, data: vec![], ghost: true });
+            let mut order: Vec<usize> = (0..nf).collect();
+            order.insert(rng.below(nf as u64 + 1) as usize, d);
+            let mut seen = false;
+            let mut ar = Vec::new();
+            for &i in &order {
+                let mut f = files[i].clone();
+                if i == d && seen && !same { f.data = content_of('p', round as u64 + 5, f.data.len() + 1); }
+                if i == d { seen = true; }
+                ar.extend(entry(b"070701", &f, i, 0));
+            }
+            ar.extend(cpio_trailer());
+            e.raw(&foreign_pkg(&fs, false, &ar));
+        }
+        // 11. source-package style: empty directory name, plain entry names (no "./"), one of them starting
+        //     with a dot; header order and another order; one file left out
+        {
+            let mut fs = files.clone();
+            for (i, f) in fs.iter_mut().enumerate() {
+                f.dir = Vec::new();
+                if i == 1 { let mut b = b".".to_vec(); b.extend_from_slice(&f.base); f.base = b; }
+            }
+            for variant in 0..3 {
+                let mut order: Vec<usize> = (0..nf).collect();
+                if variant == 1 { order.reverse(); }
+                if variant == 2 { order.remove(rng.below(nf as u64) as usize); }
+                let mut hs = fs.clone();
+                if variant == 2 { for (i, f) in hs.iter_mut().enumerate() { if !order.contains(&i) { f.ghost = true; } } }
+                let mut ar = Vec::new();
+                for &i in &order { ar.extend(named(&fs[i].base, &fs[i], i)); }
+                ar.extend(cpio_trailer());
+                e.raw(&foreign_pkg(&hs, false, &ar));
+            }
+        }
+        // 12. stripped entries: one file left out (a %ghost), reversed order; the same index twice
+        {
+            let g = rng.below(nf as u64) as usize;
+            let mut fs = files.clone();
+            fs[g].ghost = true;
+            let mut ar = Vec::new();
+            for i in (0..nf).rev() { if i != g { ar.extend(stripped_entry(i as u32, &files[i].data)); } }
+            ar.extend(stripped_entry(u32::MAX, &[]));
+            e.raw(&foreign_pkg(&fs, true, &ar));
+            let mut fs = files.clone();
+            fs.push(FFile { dir: b"/".to_vec(), base: b"zz-ghost".to_vec(), mode: 0o100644, data: vec![], ghost: true });
+            let mut ar = Vec::new();
+            for i in 0..nf { ar.extend(stripped_entry(i as u32, &files[i].data)); if i == g { ar.extend(stripped_entry(i as u32, &files[i].data)); } }
+            ar.extend(cpio_trailer());
+            e.raw(&foreign_pkg(&fs, true, &ar));
         }
     }
 }
